@@ -6,7 +6,7 @@ from . import c04
 
 ID = "C18"
 LEVEL = "exploration"
-RULE = ("same case families as C04 restricted to single-module programs: example-corpus files without imports, programs from "
+RULE = ("same case families as C04 restricted to single-module programs: the SIZE boundaries of C04, example-corpus files without imports, programs from "
         "the generators of C01/C07/C08/C12/C13/C15/C17(single module), and the exhaustive set of string literals over the "
         "format-special alphabet (all up to length 3; length 4 sampled in quick, complete in thorough), each literal becoming a "
         "make_str argument of the text form. Oracle: stdout and exit class of `compile --output-format raw-text`, rename to "
@@ -100,7 +100,7 @@ def check(case):
                 r.failure = first_known
         return r
     files, entry = case["files"], case.get("entry", "main.ms")
-    sc = make_scenario(files, entry, loose=(fam == "corpus"))
+    sc = make_scenario(files, entry, expect=case.get("expect"), loose=(fam == "corpus"))
     res, fails, _ = scenario.execute(sc)
     text = files[entry]
     labels = ["family=" + fam]
@@ -122,7 +122,7 @@ def enumerated(tier, seed):
     corpus = [c for c in c04.corpus_cases() if "import " not in c["files"][c["entry"]]]
     for c in corpus:
         c["files"] = {c["entry"]: c["files"][c["entry"]]}
-    return corpus + c04.string_cases(tier, seed)
+    return corpus + c04.size_cases() + c04.string_cases(tier, seed)
 
 
 def strategy(tier):
